@@ -295,6 +295,20 @@ func c18Dvb(r *Run, ab, dd bool, form string, t, o int, a, b string, errStyle in
 	r.Op(line, res)
 	r.Case(line, true)
 	r.Stat("dvb:" + form)
+	// the saved element: attributes in document order, formulas as decoded text
+	xres := "ERR"
+	if buf, err := f.WriteToBuffer(); err == nil {
+		if attrs, texts, ok := c18Element(buf.Bytes(), "xl/worksheets/sheet1.xml", "dataValidation", []string{"formula1", "formula2"}); ok {
+			el := func(k string) string {
+				if t, ok := texts[k]; ok {
+					return hx(t)
+				}
+				return "~"
+			}
+			xres = "ok " + c18AttrText(attrs) + " f1=" + el("formula1") + " f2=" + el("formula2")
+		}
+	}
+	r.Op("dvx"+strings.TrimPrefix(line, "dvb"), xres)
 }
 
 func c18Dvbs(r *Run, rng *Rng, mul int) {
